@@ -98,7 +98,7 @@ def run_c09(pid, tier, seed, replay=None):
         ck.cov["evaluations"] = len(fits)
         ck.cov["distinct_nontrivial"] = n - ck.cov["skipped_ill_posed"]
         ck.cov["problems_enumerated_by_tlc"] = total
-        ck.cov["rule"] = "seeded sample of the TLC-enumerated problems (two fifths 1-D, two fifths 2-D, a fifth 3-D, and 4-D problems on the three smallest axes): axes x penalty orders x smoothing in {0,1,1e3,1e6} x dense/missing/sparse data x unit/varying weights x scalar/per-dimension arguments; each fitted plain, shuffled, with zero-weight extras and through the C API; plus one consistent 260 x 257 order-1 problem (positions in F beyond 2^32)"
+        ck.cov["rule"] = "seeded sample of the TLC-enumerated problems (two fifths 1-D, two fifths 2-D, a fifth 3-D, and 4-D problems on the three smallest axes): axes x penalty orders x smoothing in {0,1,1e3,1e6} x dense/missing/sparse data x unit/varying weights x scalar/per-dimension arguments; each fitted plain, shuffled, with zero-weight extras and through the C API; two problems in seven with weights and smoothing scaled together by 2^-40 / 2^-55 / 2^30; plus one consistent 260 x 257 order-1 problem (positions in F beyond 2^32)"
         return ck.finish(exhaustive=False)
     finally:
         if not os.environ.get("VERIF_KEEP"):
